@@ -59,8 +59,8 @@ MUTANTS = [
 	 "index = index.astype(np.intp)", ["index = index.astype(np.intp, copy=False)"]),
 	('c20-slice-bounds-not-rebased', 'C20', 'src/gambit/sigs/base.py',
 	 "bounds = self.bounds[start:(stop + 1)] - self.bounds[start]", ["bounds = self.bounds[start:(stop + 1)] - self.bounds[max(start - 1, 0)]"]),
-	('c20-delitem-noop-on-last', 'C20', 'src/gambit/sigs/base.py',
-	 "del self._list[i]", ["if i != len(self._list) - 1:", "\tdel self._list[i]", "else:", "\tself._list.pop()", "\tself._list[:] = self._list[:]"]),
+	('c20-delete-last-removes-first', 'C20', 'src/gambit/sigs/base.py',
+	 "del self._list[i]", ["if isinstance(i, int) and i == -1:", "\ti = 0", "del self._list[i]"]),
 	('c18-plain-session-in-cli', 'C18', 'src/gambit/cli/common.py',
 	 "self._Session = sessionmaker(self.engine, class_=ReadOnlySession)", ["self._Session = sessionmaker(self.engine)"]),
 	('c18-flush-forwards', 'C18', 'src/gambit/db/sqla.py',
